@@ -181,6 +181,15 @@ def check(run):
                     and isinstance(got[3], K) and bool(got[3].v) == test
                 eq = it.cmp(ast.Eq(), a, b, None)
                 ok_eq = isinstance(eq, K) and eq.v is True
+                if wc in edge and ok_rt:
+                    # a parsed address renders every variant the caller asks for: explicit arguments win over what the parsed text carried
+                    for b2, t2 in ((True, False), (False, False), (True, True), (False, True)):
+                        text2 = cm.call_method(it, b, 'to_str', K(True), K(url), K(b2), K(t2))
+                        first = text2.payload.parts[0][0] if isinstance(text2, B64Text) and isinstance(text2.payload, Rope) else None
+                        okv = isinstance(first, K) and first.v[0] == spec_tag(b2, t2)
+                        run.check(okv, 'D2', 'Address.to_str[tag of a parsed address]' if not okv else f'reparsed-tag[{tag},asked bounce={int(b2)},test={int(t2)}]',
+                                  f'{tag}: the address parsed from this text, rendered with is_bounceable={b2}, is_test_only={t2}: tag byte ' +
+                                  (f'{first.v[0]:#x}' if isinstance(first, K) else 'not constant') + f', must be {spec_tag(b2, t2):#x}', w_str, witness=dict(wc=wc, parsed=[bounce, test], asked=[b2, t2]))
                 why_rt = f'parsed wc={vrepr(got[0])}, id={"H" if got[1] is h else vrepr(got[1])[:30]}, bounceable={vrepr(got[2])}, test_only={vrepr(got[3])}, equal={vrepr(eq)}'
             except RaiseEx as e:
                 ok_rt = ok_eq = False
